@@ -13,6 +13,8 @@ import (
 	"go/token"
 	"math"
 	"math/big"
+	"os"
+	"runtime/debug"
 	"sort"
 	"strconv"
 	"strings"
@@ -1035,13 +1037,16 @@ func (t *trans) exprFn(leanName string, what string, e ast.Expr, varTypes map[st
 func emitTranslated(p *pkgInfo) (out string, err error) {
 	defer func() {
 		if r := recover(); r != nil {
+			if os.Getenv("TRDEBUG") != "" {
+				debug.PrintStack()
+			}
 			err = fmt.Errorf("%v", r)
 		}
 	}()
 	t := &trans{p: p, ren: map[string]string{}, sigs: map[string]sig{}, psigs: map[string]psig{}}
 	knownStructs = p.structs
 	var b strings.Builder
-	b.WriteString("/- GENERATED by extract (translate.go) from /repo's current source: do not edit.\n   Go functions of the subset the translator understands, as Lean definitions; shifts and rotations\n   have Go's semantics (RapidModel/GoSem.lean). -/\nimport RapidModel.GoProg\nimport RapidModel.GoImp\nimport RapidModel.GoProgImp\nimport RapidModel.GoScript\n\nset_option linter.unusedVariables false\n\nnamespace Rapid.Translated\n\n")
+	b.WriteString("/- GENERATED by extract (translate.go) from /repo's current source: do not edit.\n   Go functions of the subset the translator understands, as Lean definitions; shifts and rotations\n   have Go's semantics (RapidModel/GoSem.lean). -/\nimport RapidModel.GoProg\nimport RapidModel.GoImp\nimport RapidModel.GoProgImp\nimport RapidModel.GoScript\nimport RapidModel.GoEngine\n\nset_option linter.unusedVariables false\n\nnamespace Rapid.Translated\n\n")
 	b.WriteString(t.function("bitmask64", "bitmask64"))
 	b.WriteString("\n")
 	b.WriteString(t.function("ufloatFracBits", "ufloatFracBits"))
@@ -1137,6 +1142,11 @@ func emitTranslated(p *pkgInfo) (out string, err error) {
 		b.WriteString(t.impFunctionMode(fn, ssigs, true, ""))
 		b.WriteString("\n")
 	}
+	b.WriteString("/-! ### engine.go: the generation loop `findBug`, in `Go.EM` (seeding the stream, running a test case and the early-exit test are requests) -/\n\n")
+	emMode = true
+	b.WriteString(t.impFunctionMode("findBug", map[string]*isig{}, true, ""))
+	emMode = false
+	b.WriteString("\n")
 	b.WriteString("/-! ### engine.go: the bytes of a fuzz input as 64-bit words (`checkFuzz`) -/\n\n")
 	b.WriteString(t.impFragment("checkFuzz", "checkFuzz_words", func(i int, s ast.Stmt) bool {
 		if ds, ok := s.(*ast.DeclStmt); ok {
